@@ -50,6 +50,17 @@ def run(res, tier="quick", seed=0, widen=False):
                 mask = None if rng.random() < 0.5 else [rng.random() < 0.6 for _ in range(L)]
                 skip_na = rng.random() < 0.7 if op != "count" else True
                 cases.append((op, dt, codes, vals, 2, mask, skip_na))
+    # sentinel collisions: running sums of plain int64 values that pass exactly through the int64 minimum (the
+    # in-band null marker of timestamps): plain integers hold no nulls, the sum must simply go on
+    NEG = -2**62
+    for _ in range(150 if tier == "quick" else 1500):
+        L = rng.randint(3, 6)
+        codes = tuple(rng.choice([0, 0, 1, -1]) for _ in range(L))
+        vals = [rng.choice([1, 5, 3, 7]) for _ in range(L)]
+        i, j = rng.sample(range(L), 2)
+        vals[i] = vals[j] = NEG
+        mask = None if rng.random() < 0.6 else [rng.random() < 0.8 for _ in range(L)]
+        cases.append(("sum", "i8", codes, vals, 2, mask, rng.random() < 0.5))
     reqs, idx = [], []
     for c in cases:
         m, s, dom = cum_requests(*c)
